@@ -99,6 +99,20 @@ func c21(c *Ctx) {
 			c.ValueIs(st, st.Val, "server-"+l+"-from-options", FieldLoad(ov))
 		}
 	})
+	c.Ob("limit-writers", "R1", "a per-call limit is non-nil only if a call option set it: the two limit fields of the call info are written only by the MaxCallRecvMsgSize/MaxCallSendMsgSize options and by the two stream constructors (from the limit-combining function); in particular the defaults are not pre-populated, which would make them take part in the minimum", 4, func() {
+		for _, l := range []string{"maxSendMessageSize", "maxReceiveMessageSize"} {
+			fv := c.field("grpc", "callInfo", l)
+			muts := c.WhoMayMutate("callInfo."+l, fv, c.scope("grpc"),
+				"grpc.MaxRecvMsgSizeCallOption.before", "grpc.MaxSendMsgSizeCallOption.before",
+				"grpc.newClientStreamWithParams", "grpc.newNonRetryClientStream")
+			for _, m := range muts {
+				top := shortName(topFunc(m.Instr.Parent()))
+				if top == "grpc.newClientStreamWithParams" || top == "grpc.newNonRetryClientStream" {
+					c.ValueIs(m.Instr, m.Val, l+"-from-getMaxSize", CallRes(Callee("grpc", "getMaxSize"), 0))
+				}
+			}
+		}
+	})
 	c.Ob("send-check", "R2", "sibling x3 (client stream, addrConn stream, server stream): the transport write (or the retry-wrapped send op) is dominated by 'payload.Len() <= limit' where payload is the post-compression payload; the refusing arm returns RESOURCE_EXHAUSTED", 6, func() {
 		payload := CallRes(Callee("grpc", "prepareMsg"), 2)
 		plen := CallWith(Callee("mem", "BufferSlice.Len"), 0, payload)
